@@ -192,7 +192,7 @@ pub fn stack_item_size() -> usize {
 pub fn run_case(line: &str) {
     let m = kv(line);
     let id = line.split(' ').nth(1).unwrap();
-    println!("C {id}");
+    outln!("C {id}");
     let sh: Sh = Rc::new(RefCell::new(Shared { fail_at: m.get("fail").and_then(|v| v.parse().ok()), ..Default::default() }));
     let mut settings = Settings::new();
     let (mut n_el, mut n_cm, mut n_tx, mut n_dt, mut n_end) = (0usize, 0usize, 0usize, 0usize, 0usize);
@@ -201,14 +201,14 @@ pub fn run_case(line: &str) {
     for t in toks.iter().filter(|t| t.starts_with("sel=")) {
         let parts: Vec<&str> = t[4..].split('~').collect();
         let sel_str = String::from_utf8(unhex(parts[0])).unwrap();
-        let sel: Selector = match sel_str.parse() { Ok(s) => s, Err(e) => { println!("X selector-error {:?} {}", e, sel_str); bad_selector = true; break; } };
+        let sel: Selector = match sel_str.parse() { Ok(s) => s, Err(e) => { outln!("X selector-error {:?} {}", e, sel_str); bad_selector = true; break; } };
         let mut h = ElementContentHandlers::default();
         if parts[2] != "-" { h = h.element(element_handler(sh.clone(), n_el, parts[2].to_string())); n_el += 1; }
         if parts[3] != "-" { h = h.comments(comment_handler(sh.clone(), n_cm, parts[3].to_string())); n_cm += 1; }
         if parts[4] != "-" { h = h.text(text_handler(sh.clone(), n_tx, parts[4].to_string())); n_tx += 1; }
         settings = settings.append_element_content_handler((Cow::Owned(sel), h));
     }
-    if bad_selector { println!("."); return; }
+    if bad_selector { outln!("."); return; }
     for t in toks.iter().filter(|t| t.starts_with("doc=")) {
         let parts: Vec<&str> = t[4..].split('~').collect();
         let mut h = DocumentContentHandlers::default();
@@ -245,7 +245,7 @@ pub fn run_case(line: &str) {
             .with_max_allowed_memory_usage(geti(&m, "mem", 1 << 20))
             .with_graceful_bail_out_on_memory_limit_exceeded(getb(&m, "bm")));
     let built = catch_unwind(AssertUnwindSafe(|| HtmlRewriter::new(settings, Sink(sh.clone()))));
-    let mut rw = match built { Ok(r) => Some(r), Err(_) => { println!("R new panic:construct"); println!("."); return; } };
+    let mut rw = match built { Ok(r) => Some(r), Err(_) => { outln!("R new panic:construct"); outln!("."); return; } };
     let limiter = rw.as_ref().unwrap().verif_memory_limiter();
     let ops = parse_ops(m.get("ops").map(|s| s.as_str()).unwrap_or("E"));
     for (k, op) in ops.iter().enumerate() {
@@ -266,9 +266,9 @@ pub fn run_case(line: &str) {
                 }
             }
         };
-        for l in sh.borrow_mut().log.drain(..) { println!("{l}"); }
-        println!("R {k} {res}");
-        if matches!(op, Op::Write(_)) && (res == "ok" || res.starts_with("err")) { println!("U {k} {}", limiter.verif_usage()); }
+        for l in sh.borrow_mut().log.drain(..) { outln!("{l}"); }
+        outln!("R {k} {res}");
+        if matches!(op, Op::Write(_)) && (res == "ok" || res.starts_with("err")) { outln!("U {k} {}", limiter.verif_usage()); }
     }
-    println!(".");
+    outln!(".");
 }
